@@ -71,13 +71,22 @@ def run_job(job):
     from . import common, lianrun
     from .monitors import artefacts
     t0 = time.time()
-    os.makedirs(os.path.dirname(job["lock"]), exist_ok=True)
-    lockf = open(job["lock"], "a")
-    fcntl.flock(lockf, fcntl.LOCK_EX)
-    lock_wait = time.time() - t0
     ws_arg = job["workspace"]
     ws = lianrun.ws_dir(ws_arg)
     pre_log = []
+    # history steps that happen at another location do not need the shared workspace path: do them before locking
+    for pre in job.get("pre", []):
+        if pre["op"] == "run" and pre.get("at"):
+            shutil.rmtree(pre["at"], ignore_errors=True)
+            argv = lianrun.lian_argv("run", pre["lang"], pre["in_paths"], pre["at"], pre["settings"], pre.get("extra", []))
+            code = _run_in_grandchild(argv)
+            w = lianrun.ws_dir(pre["at"])
+            pre_log.append(["run-elsewhere", code, len(artefacts.list_files(w)) if os.path.isdir(w) else None])
+    t1 = time.time()
+    os.makedirs(os.path.dirname(job["lock"]), exist_ok=True)
+    lockf = open(job["lock"], "a")
+    fcntl.flock(lockf, fcntl.LOCK_EX)
+    lock_wait = time.time() - t1
     try:
         if os.path.lexists(ws_arg):
             shutil.rmtree(ws_arg)
@@ -87,13 +96,11 @@ def run_job(job):
         for pre in job.get("pre", []):
             op = pre["op"]
             if op == "run":
-                at = pre.get("at") or ws_arg
                 if pre.get("at"):
-                    shutil.rmtree(at, ignore_errors=True)
-                argv = lianrun.lian_argv("run", pre["lang"], pre["in_paths"], at, pre["settings"], pre.get("extra", []))
+                    continue
+                argv = lianrun.lian_argv("run", pre["lang"], pre["in_paths"], ws_arg, pre["settings"], pre.get("extra", []))
                 code = _run_in_grandchild(argv)
-                w = lianrun.ws_dir(at)
-                pre_log.append(["run", code, len(artefacts.list_files(w)) if os.path.isdir(w) else None])
+                pre_log.append(["run", code, len(artefacts.list_files(ws)) if os.path.isdir(ws) else None])
             elif op == "junk":
                 for d in ("frontend", "semantic_p1", "semantic_p3", "taint", "src/zz_stale_pkg"):
                     os.makedirs(os.path.join(ws, d), exist_ok=True)
@@ -133,7 +140,10 @@ def run_job(job):
         elif job["kind"] == "cli":
             argv = lianrun.lian_argv("run", job["lang"], job["in_paths"], ws_arg, job["settings"], job.get("extra", []))
             cmd = [sys.executable, os.path.join(common.REPO, "src", "lian", "main.py")] + argv[1:]
-            env = {k: v for k, v in os.environ.items() if k not in ("PYTHONPATH",)}
+            env = dict(os.environ)
+            # /venv carries an editable install of lian pointing at /repo/src and main.py only *appends* its own tree to
+            # sys.path: name the tree under test explicitly (a no-op for LIAN_REPO=/repo, decisive for scratch copies)
+            env["PYTHONPATH"] = os.path.join(common.REPO, "src")
             env.update(env_extra)
             env["PYTHONHASHSEED"] = str(job["hashseed"])
             env["PYTHONDONTWRITEBYTECODE"] = "1"
